@@ -361,17 +361,13 @@ func budget(r *vk.Run) time.Duration {
 func main() {
 	r := vk.Start("C09", "model_checking")
 	scenarios := []e1.Scenario{}
-	maxLen := 3
+	maxLen, maxFixed := 3, 3
 	if r.Thorough() {
-		maxLen = 4
+		maxLen, maxFixed = 5, 4
 	}
 	for first := range alphabet {
 		scenarios = append(scenarios, historyScenario(first, maxLen, 0))
-		if r.Thorough() {
-			scenarios = append(scenarios, historyScenario(first, 3, 60001))
-		} else {
-			scenarios = append(scenarios, historyScenario(first, 2, 60001))
-		}
+		scenarios = append(scenarios, historyScenario(first, maxFixed, 60001))
 	}
 	// discovery under all interleavings of the reader goroutine and the caller (preemption bound 2)
 	for first, s := range alphabet {
@@ -415,7 +411,7 @@ func main() {
 	if r.Worker == "" && r.Replay == "" {
 		e1.Conformance(r)
 	}
-	r.Rule(fmt.Sprintf("histories: every sequence of length <= %d (fixed bind port: <= %d) over %d steps (path x network behaviour incl. silence, late and just-in-time replies, stray flood, TCP stall/refused/reset/EOF/blackhole, ICMP unreachable, SetAddress, discovery), step by step as environment choices; fixed-port scenarios with 2 and 3 concurrent callers (silent holders first) over all interleavings within the preemption bound. distinct = distinct history/outcome labels", maxLen, map[bool]int{true: 3, false: 2}[r.Thorough()], len(alphabet)))
+	r.Rule(fmt.Sprintf("histories: every sequence of length <= %d (fixed bind port: <= %d) over %d steps (path x network behaviour incl. silence, late and just-in-time replies, stray flood, TCP stall/refused/reset/EOF/blackhole, ICMP unreachable, SetAddress, discovery), step by step as environment choices; fixed-port scenarios with 2 and 3 concurrent callers (silent holders first) over all interleavings within the preemption bound. distinct = distinct history/outcome labels", maxLen, maxFixed, len(alphabet)))
 	r.Assume("virtual time: computation takes no time, so 'within the timeout' is decided with zero scheduling slack")
 	r.Assume("network behaviours are those of mc/shim/vs/net.go (refused connect fails immediately, blackholed connect blocks until the dial deadline, ICMP unreachable surfaces as a read error)")
 	r.Finish()
